@@ -1008,8 +1008,29 @@ def import_ordinal(F):
             if not ok:
                 r.violate("%s | position-vs-ordinal" % fn["path"], F.loc(fn, bad),
                           "a loop over all imports that filters by kind compares the enumerate() position with a per-kind index: once a non-matching import precedes, the wrong import (or none) is selected")
+    # (b) API functions of ModuleImports that translate a FunctionID (pre-edit index space: ids only move at encode time)
+    #     count *every* function import, deleted or not
+    n_api = 0
+    for fn in F.find_fns(self_adt="ModuleImports"):
+        if fn.get("body") is None:
+            continue
+        takes_fid = any("FunctionID" in (pm.get("ty") or "") for pm in fn.get("params", [])) or "FunctionID" in (fn.get("ret") or fn.get("sig") or "")
+        if not takes_fid and fn["name"] not in ("set_fn_name", "get_func"):
+            continue
+        for m in walk(fn["body"]):
+            if m.get("k") == "Match" and m.get("src") == "ForLoopDesugar" and any(x.get("k") == "Field" and x["name"] == "imports" for x in walk(m["scrut"])):
+                if not any(x.get("k") == "MethodCall" and x["method"] in ("is_function",) for x in walk(m)):
+                    continue
+                n_api += 1
+                reads_deleted = [x for x in walk(m) if x.get("k") == "Field" and x["name"] == "deleted"]
+                ok = not reads_deleted
+                r.ob(ok, {"fn": fn["path"], "counts_deleted_imports_too": ok})
+                if not ok:
+                    r.violate("%s | skips deleted" % fn["path"], F.loc(fn, reads_deleted[0]),
+                              "%s counts function imports to translate a FunctionID but skips deleted ones: FunctionIDs keep their pre-edit values until encode, so after an earlier imported function was deleted the wrong import is addressed" % fn["name"])
     r.count("import_loops", n_loops)
     r.count("kind_filtered_enumerations", n_filtered)
+    r.count("function_id_translations", n_api)
     return r
 
 
